@@ -2,8 +2,8 @@
 
 Ties
   T  harness/translate/fmt_table.py regenerates lean/Emboss/Generated/FmtTable.lean
-     (grammar productions + production -> handler registry, sorted, plus an interned copy)
-     before the Lean build; `C11_table_ok` (every handler known, registered with the right
+     (grammar productions + production -> handler registry, sorted, plus an interned copy) and
+     lean/Emboss/Generated/FmtGlue.lean (certificate tables for separability) before the Lean build; `C11_table_ok` (every handler known, registered with the right
      calling convention, typed at every production, ignoring only layout tokens; registry =
      grammar) is re-decided in the kernel by `lake build`; the compiled checker re-evaluates
      it (op TABLE) together with the separability obligation (ops GLUE / GLUECHECK).
@@ -805,7 +805,8 @@ def glued_pairs_check(st, model):
     """Separability obligation `C11_render_separable`.  The driver computes, from the regenerated
     grammar + handler table, every terminal pair some handler prints with nothing in between
     (`gluedPairs`, Spec/Fmt.lean), checks that its fixpoint computations converged and that each
-    pair is in the audited list (`gluedOK`, compiled checker).  Here every computed pair is
+    pair is in the audited list (`gluedOK`, compiled checker; the kernel checks the certificate
+    form of the same statement, theorem `C11_render_separable`).  Here every computed pair is
     tried on the real tokenizer: texts of the two classes, juxtaposed, must tokenize back into
     exactly the two tokens — no unsplit pair."""
     chk = st.chk
@@ -829,7 +830,7 @@ def glued_pairs_check(st, model):
     chk.extra["glue_obligation"] = ok[:300]
     if ok == "ok" and not bad:
         chk.discharged += 1
-        chk.theorems.append({"theorem": "C11_render_separable: gluedOK formatters grammar (compiled checker, op "
+        chk.theorems.append({"theorem": "gluedOK formatters (fixpoint form of C11_render_separable; compiled checker, op "
                                         "GLUECHECK) + tokenizer sampling of every computed pair: no unsplit pair",
                              "axioms": ["Lean compiler"]})
         return
